@@ -145,3 +145,35 @@ def report_building():
             return {"violated": False, "tags_in_snapshot": len(snap)}
     finally:
         logging.disable(logging.NOTSET)
+
+
+def changed_tags_are_queued():
+    """real Engine: a system tag and a uod tag change through set_value; notify_tag_updates must queue both and clear the records"""
+    import logging
+    from openpectus.lang.exec.uod import UodBuilder
+    from openpectus.lang.exec.tags import Tag, SystemTagName
+    from openpectus.test.engine.utility_methods import EngineTestRunner
+    logging.disable(logging.CRITICAL)
+
+    def create_uod():
+        uod = (UodBuilder().with_instrument("DemoUod").with_author("Demo", "demo@example.org").with_filename(__file__)
+               .with_hardware_none().with_location("loc").with_tag(Tag("X1", value=1)).build())
+        uod.hwl.connect()
+        return uod
+    try:
+        with EngineTestRunner(create_uod, "Mark: A\n", fail_on_log_error=False).run() as instance:
+            e = instance.engine
+            e.notify_tag_updates()
+            while e.tag_updates.qsize():
+                e.tag_updates.get_nowait()
+            e.uod.tags["X1"].set_value(5, 1.0)
+            e._system_tags[SystemTagName.MARK].set_value("m", 1.0)
+            e.notify_tag_updates()
+            queued = []
+            while e.tag_updates.qsize():
+                queued.append(e.tag_updates.get_nowait().name)
+            left = (e._system_listener.changes, e._uod_listener.changes)
+            bad = "X1" not in queued or str(SystemTagName.MARK) not in [str(q) for q in queued] or any(left)
+            return {"violated": bad, "queued": [str(q) for q in queued], "records_left": [list(x) for x in left]}
+    finally:
+        logging.disable(logging.NOTSET)
